@@ -30,8 +30,12 @@ theorem shiftLoop_sim (cfg : Cfg) (keys : List Key) :
     | some t =>
       simp only [Option.map_some]
       obtain ⟨a1, a2⟩ := ih (Model.deleteRec i k) (instOK_deleteRec cfg i k hi)
+      have ht : RecOK cfg t := hi.recs (k, t) (AL.find_mem _ _ _ hf)
+      obtain ⟨u, hu⟩ := (wf_iff t.c).mp ht.wf
+      have hcl : ({ t with c := t.c.clone } : MRec).abs = t.abs := by
+        simp [MRec.abs, hu, clone_ofVal]
       refine ⟨a1, ?_⟩
-      rw [← absI_deleteRec, ← a2]
+      rw [← absI_deleteRec, ← a2, hcl]
 
 theorem delLoop_sim (cfg : Cfg) (keys : List Key) :
     ∀ (i : Inst), InstOK cfg i →
